@@ -131,9 +131,16 @@ def analyse(obs: Obs, prog):
     # ---------------------------------------------------------------- assess
     r = ev.eval_fn(V.methods["assess"], V.module, V)
     w = W(V, "assess")
-    pair = tuple_n(r.ret, 2, "Vmap.assess")
+    # zero-length maps are empty with score 0: the only sample of a zero-length map is the EMPTY choice map, and tracing the inner assess against it raises
+    # MissingAddress although it would run for 0 elements - there must be a path for dim_length == 0 that does not touch the inner assess
+    zero_arms = [(c, t) for c, t in r.returns if any(pol and is_t(x, "cmp") and x[1] == "==" and C(0) in (x[2], x[3]) and DIM in (x[2], x[3]) for x, pol in c)]
+    okz = len(zero_arms) == 1 and is_t(zero_arms[0][1], "tuple") and len(zero_arms[0][1][1]) == 2 and is_zero(zero_arms[0][1][1][0]) and not mcalls(zero_arms[0][1], "assess")
+    obs.add({"C11", "C01", "C02"}, "ZERO-LENGTH", "Vmap.assess/zero-length", okz, construct="assess of a zero-length map", derived=f"{len(zero_arms)} path(s) guarded by dim_length == 0" + (f": {show(zero_arms[0][1])[:120]}" if zero_arms else ""),
+            expected="if dim_length == 0: return 0, <empty stacked return value> - without assessing the inner function", where=w)
+    main = [t for c, t in r.returns if (c, t) not in zero_arms]
+    pair = tuple_n(main[0] if len(main) == 1 else r.ret, 2, "Vmap.assess")
     inner = ("call", ("attr", GF, "assess"), (("call", P("sample"), (elem(arange(DIM)),), ()), axel(P("args"))), ())
-    got = [c for c in mcalls(r.ret, "assess") if c[1][1] == GF]
+    got = [c for c in mcalls(("tuple", tuple(pair)), "assess") if c[1][1] == GF]
     obs.add({"C01", "C02", "C11"}, "IDX-ALIGN", "Vmap.assess/inner", len(got) == 1 and got[0] == inner, derived=got[0] if got else "none", expected="gen_fn.assess(sample(i), args_i), i from arange(dim_length)", where=w)
     obs.add({"C01", "C02", "C11"}, "ASSESS-AGREE", "Vmap.assess/score", pair[0] == jsum(stack(mk_proj(inner, 0))), derived=pair[0], expected="sum over elements of element scores", where=w)
     obs.add({"C01", "C11"}, "ASSESS-AGREE", "Vmap.assess/retval", pair[1] == stack(mk_proj(inner, 1)), derived=pair[1], expected="stacked element return values", where=w)
